@@ -164,7 +164,7 @@ Definition rfc6287_question (v : N) : option bytes :=
 
 Theorem parse_decimal_challenge_spec q :
   q <> [] -> all_digits q ->
-  parse_decimal_challenge q = match rfc6287_question (dec_value q) with Some b => Ok b | None => Err (EStd 3 []) end.
+  parse_decimal_challenge q = match rfc6287_question (dec_value q) with Some b => Ok b | None => Err (EStd 2 []) end.
 Proof.
   intros Hne Hd. unfold parse_decimal_challenge, rfc6287_question.
   destruct q as [|c q']; [congruence|].
